@@ -1,0 +1,12 @@
+//go:build verif
+
+package funcGen
+
+// VerifStaticArities returns the static functions with their number of arguments (-1 = variable).
+func (g *FunctionGenerator[V]) VerifStaticArities() map[string]int {
+	res := map[string]int{}
+	for name, f := range g.staticFunctions {
+		res[name] = f.Args
+	}
+	return res
+}
